@@ -43,6 +43,14 @@ F = {
     "brackets_pairs": lambda n: "[]" * n,
     "brackets_open_text": lambda n: "[a" * n,
     "bang_brackets_open": lambda n: "![" * n,
+    # two-part families: something that touches the inline nesting bookkeeping, then a deep run of openers
+    "html_a_close_then_brackets": lambda n: "</a>" * n + "[" * n,
+    "html_a_open_then_brackets": lambda n: "<a>" * n + "[" * n,
+    "html_a_close_then_images": lambda n: "</a>" * n + "![" * n,
+    "links_then_brackets": lambda n: "[a](u)" * n + "[" * n,
+    "emph_then_brackets": lambda n: "*a* " * n + "[" * n,
+    "autolinks_then_brackets": lambda n: "<http://a.b>" * n + "[" * n,
+    "code_then_brackets": lambda n: "`a`" * n + "[" * n,
     "link_nested": lambda n: "[" * n + "a" + "](u)" * n,
     "link_flat": lambda n: "[a](u) " * n,
     "link_openparen": lambda n: "[a](" * n,
@@ -238,7 +246,7 @@ def sized(f, target: int) -> str:
     return f(lo)
 
 
-ATOMS = ["[", "]", "(", ")", "!", "*", "_", "~", "`", "<", ">", "&", "#", "-", "+", "|", "\\", '"', "'", "a", "1", " ", "\n", "  ", "    ", ":", ".", "/", "=", "u", "&amp;", "<a", "](", "![", "> ", "- ", "1. ", "\n\n", "```", "]:", " \"", "<!--", "http://", "@"]
+ATOMS = ["[", "]", "(", ")", "!", "*", "_", "~", "`", "<", ">", "&", "#", "-", "+", "|", "\\", '"', "'", "a", "1", " ", "\n", "  ", "    ", ":", ".", "/", "=", "u", "&amp;", "<a", "](", "![", "> ", "- ", "1. ", "\n\n", "```", "]:", " \"", "<!--", "http://", "@", "</a>", "<a>", "</b>", "<!--", "-->", "](u)", "*a*"]
 
 
 @st.composite
